@@ -24,19 +24,35 @@ func scenarios(r *vr.Run) []*clustermc.Scenario {
 		// leader change (Campaign on store 2) while the old leader's proposal is still in flight
 		{Name: "q-1region-campaign-d13", Regions: 1, Leaders: []int{1}, Budget: 1, Faults: camp2, MaxDepth: 13, DepthBound: true,
 			Ops: []clustermc.OpSpec{w(1, "a", "A1", 1), w(1, "a", "A2", 2)}},
-		// one proposal under every single fault
-		{Name: "q-1region-1op-anyfault", Regions: 1, Leaders: []int{1}, Budget: 1, Faults: all, MaxDepth: 80,
+		// one proposal under every single network fault (leader changes are in the other scenarios)
+		{Name: "q-1region-1op-netfault", Regions: 1, Leaders: []int{1}, Budget: 1, Faults: clustermc.Faults{Drop: true, Dup: true, Reorder: true, Partition: true}, MaxDepth: 80,
 			Ops: []clustermc.OpSpec{w(1, "a", "A1", 1)}},
 	}
 	// production raft-log storage (WALStorage): a new leader's entries must replace the
 	// deposed leader's conflicting uncommitted tail on disk as well
 	quick = append(quick, &clustermc.Scenario{Name: "q-wal-1region-campaign-beat-d17", Regions: 1, Leaders: []int{1}, Budget: 1, Faults: camp2, MaxBeats: 1, BeatAt: []int{2}, MaxDepth: 17, DepthBound: true, WAL: true,
 		Ops: []clustermc.OpSpec{w(1, "a", "A1", 1)}})
+	// crash + restart of a WAL-backed store in the middle of a split vote: the fixed prelude
+	// brings stores 2 and 3 to candidates of the same term whose vote requests to store 1
+	// are still in flight and the old leader's heartbeat has reached store 2; from there
+	// everything is explored (one out-of-order delivery into store 1, one crash-restart of store 1): a vote that was
+	// granted must survive the restart, i.e. no term may get two leaders
+	splitVote := []string{"c:12", "c:13", "d:12>13", "d:13>12", "d:13>12", "d:12>13", "b:11", "d:11>12"}
+	// quick: the prelude also contains the out-of-order delivery that lets store 1 learn the new
+	// term from the answer to its heartbeat (it persists {term, no vote}); then all delivery
+	// orders with one crash-restart of store 1 at any point
+	learnTerm := append(append([]string{}, splitVote...), "o:12>11:2")
+	quick = append(quick, &clustermc.Scenario{Name: "q-wal-splitvote-restart-d10", Regions: 1, Leaders: []int{1}, Budget: 1,
+		Faults: clustermc.Faults{Restart: true, RestartAt: []int{1}}, Prelude: learnTerm, MaxDepth: 10, DepthBound: true, WAL: true})
 	thorough := []*clustermc.Scenario{
+		{Name: "t-wal-splitvote-reorder-restart-d11", Regions: 1, Leaders: []int{1}, Budget: 2,
+			Faults: clustermc.Faults{Reorder: true, ReorderTo: []int{1}, Restart: true, RestartAt: []int{1}}, Prelude: splitVote, MaxDepth: 11, DepthBound: true, WAL: true},
 		{Name: "t-wal-1region-isolate-campaign-heal-beat2-d17", Regions: 1, Leaders: []int{1}, Budget: 3, Faults: cp, MaxBeats: 2, BeatAt: []int{2}, MaxDepth: 17, DepthBound: true, WAL: true,
 			Ops: []clustermc.OpSpec{w(1, "a", "A1", 1)}},
 		{Name: "t-wal-1region-campaign-2ops-beat-d17", Regions: 1, Leaders: []int{1}, Budget: 1, Faults: camp2, MaxBeats: 1, BeatAt: []int{2}, MaxDepth: 17, DepthBound: true, WAL: true,
 			Ops: []clustermc.OpSpec{w(1, "a", "A1", 1), w(1, "a", "A2", 2)}},
+		{Name: "t-1region-1op-anyfault", Regions: 1, Leaders: []int{1}, Budget: 1, Faults: all, MaxDepth: 120,
+			Ops: []clustermc.OpSpec{w(1, "a", "A1", 1)}},
 		{Name: "t-2regions-3ops-nofault", Regions: 2, Leaders: []int{1, 2}, Budget: 0, MaxDepth: 120,
 			Ops: []clustermc.OpSpec{w(1, "a", "A1", 1, 2), w(2, "x", "B1", 2, 1), w(1, "a", "A2", 1)}},
 		{Name: "t-1region-2ops-anyfault", Regions: 1, Leaders: []int{1}, Budget: 1, Faults: all, MaxDepth: 120,
